@@ -1,6 +1,6 @@
 (* C16 runner: decodes a case, runs model and spec, encodes the result. Executable only. *)
 From Coq Require Import List ZArith QArith Qround Qabs Qminmax Bool.
-From Gst Require Import lib.Sx lib.QAux C16.Model C16.Spec.
+From Gst Require Import lib.Sx lib.QAux C16.Model C16.Spec C16.Migrate.
 Import ListNotations.
 
 Definition asZs := asListOf asZ.
@@ -153,6 +153,97 @@ Definition run_session_sx (g : grid) (qs : list sx) : sx :=
   | None => sx_error 10
   end.
 
+(* ---- kind 14: session with mutations.  Items: a query (encodings of kind 10) or
+   (100 d v) setX0   (101 d v) setDX   (102 d n) setNX   (103 angles M) setRotationByAngles   (104 () M) setRotationByVector
+   (105 nx dx x0 angles M) resetFromVector          M = rows of the matrix the library uses, () = identity *)
+Definition asOMat (s : sx) : option (option (list (list Q))) :=
+  match s with L [] => Some None | _ => match asMat s with Some m => Some (Some m) | None => None end end.
+Definition asItem (s : sx) : option sitem :=
+  match s with
+  | L [I f; a; b] =>
+      if Z.eqb f 100 then match asNat a, asQ b with Some d, Some v => Some (SM (MSetX0 d v)) | _, _ => None end
+      else if Z.eqb f 101 then match asNat a, asQ b with Some d, Some v => Some (SM (MSetDX d v)) | _, _ => None end
+      else if Z.eqb f 102 then match asNat a, asZ b with Some d, Some v => Some (SM (MSetNX d v)) | _, _ => None end
+      else if Z.eqb f 103 || Z.eqb f 104 then match asOMat b with Some m => Some (SM (MSetRot m)) | None => None end
+      else match asQuery s with Some q => Some (SQ q) | None => None end
+  | L [I 105%Z; nx; dx; x0; _; m] =>
+      match asZs nx, asQs dx, asQs x0, asOMat m with
+      | Some nx', Some dx', Some x0', Some m' => Some (SM (MReset nx' dx' x0' m'))
+      | _, _, _, _ => None
+      end
+  | _ => match asQuery s with Some q => Some (SQ q) | None => None end
+  end.
+Fixpoint msession_sx (g : grid) (items : list sitem) : list sx :=
+  match items with
+  | [] => []
+  | SQ q :: r => L [ofAnswer (eval_query g q); ofQ (query_margin g q)] :: msession_sx g r
+  | SM m :: r => L [] :: msession_sx (apply_mop g m) r
+  end.
+
+(* ---- kinds 11-13: migration.  pts = ((active coor val) ...), vals = (val ...), val = (m e) | () *)
+Definition asPt (s : sx) : option pt :=
+  match s with
+  | L [a; c; v] => match asB a, asQs c, asOQ v with
+                   | Some a', Some c', Some v' => Some {| p_active := a'; p_coor := c'; p_val := v' |}
+                   | _, _, _ => None end
+  | _ => None
+  end.
+Definition asVals := asListOf asOQ.
+Definition loc_margin (g : grid) (eps : Q) (coor : list Q) : Q := Qmin (c2i_margin g coor false eps) (c2i_margin g coor true 0).
+Definition valued (pts : list pt) : list pt :=
+  filter (fun p => p_active p && match p_val p with Some _ => true | None => false end) pts.
+Definition node_margin (g : grid) (dt : Z) (dmax : list Q) (pts : list pt) (node : Z) : Q :=
+  Qmin (gap_margin (map (fun p => dist2 g node (p_coor p)) (valued pts)))
+       (minQ (map (fun p => dmax_margin (dvect g node (p_coor p)) dt dmax) (valued pts))).
+(* code = model of the code; spec = documented rule; oldc / oldd = the code before its repairs (corner convention,
+   resp. old dmax handling), used only to give a reverted fix its former key *)
+Definition ofRes (code spec oldc oldd : option Q) (marg : Q) : sx := L [ofOQ code; ofOQ spec; ofOQ oldc; ofOQ oldd; ofQ marg].
+
+(* the double 1e-6 (EPSILON6), exactly *)
+Definition eps6_double : Q := dyadic 4722366482869645 (-72).
+
+Definition actives (pts : list pt) : list pt := filter p_active pts.
+Definition node_margin_act (g : grid) (dt : Z) (dmax : list Q) (pts : list pt) (node : Z) : Q :=
+  Qmin (gap_margin (map (fun p => dist2 g node (p_coor p)) (actives pts)))
+       (minQ (map (fun p => dmax_margin (dvect g node (p_coor p)) dt dmax) (actives pts))).
+(* fill: 0 = no filling, 1 = filling (expandPointToGrid), 2 = filling through the ball tree *)
+Definition run_p2g (g : grid) (eps : Q) (dt : Z) (dmax : list Q) (fill : Z) (pts : list pt) : sx :=
+  let mloc := minQ (map (fun p => loc_margin g eps (p_coor p)) (valued pts)) in
+  ofList (fun node =>
+            let mg := node_margin g dt dmax pts node in
+            if Z.eqb fill 2 then ofRes (p2g_ball_node g dt dmax pts node) (spec_p2g_fill_node g dt dmax pts node)
+                                       (p2g_ball_node g dt dmax pts node) (p2g_ball_node g dt dmax pts node) (Qmin mg (node_margin_act g dt dmax pts node))
+            else if Z.eqb fill 1 then ofRes (p2g_fill_node g dt dmax pts node) (spec_p2g_fill_node g dt dmax pts node)
+                               (p2g_fill_node g dt dmax pts node) (p2g_fill_node g dt dmax pts node) mg
+            else ofRes (p2g_node eps g dt dmax pts node) (spec_p2g_node g dt dmax pts node)
+                       (p2g_node_gen false eps g dt dmax pts node) (p2g_node_old loc_centered eps g dt dmax pts node) (Qmin mloc mg)) (ranks g).
+Definition run_g2p (g : grid) (vals : list (option Q)) (eps : Q) (dt : Z) (dmax : list Q) (pts : list pt) : sx :=
+  ofList (fun p =>
+            let m1 := loc_margin g eps (p_coor p) in
+            let r1 := coordinateToRank g (p_coor p) false eps in
+            let r2 := coordinateToRank g (p_coor p) true 0 in
+            let md := Qmin (dmax_margin (dvect g r1 (p_coor p)) dt dmax) (dmax_margin (dvect g r2 (p_coor p)) dt dmax) in
+            match ofRes (g2p_one_gen loc_centered eps g vals dt dmax p) (spec_g2p_one g vals dt dmax p)
+                        (g2p_one_gen false eps g vals dt dmax p) (g2p_one_old loc_centered eps g vals dt dmax p) (Qmin m1 md) with
+            | L l => L (l ++ [I r1; I (coordinateToRank g (p_coor p) true eps); ofQ (Qmin (c2i_margin g (p_coor p) false eps) (c2i_margin g (p_coor p) true eps))])
+            | x => x
+            end) pts.
+Definition run_g2g (gin : grid) (vals : list (option Q)) (gout : grid) (eps : Q) (dt : Z) (dmax : list Q) (fill : bool) : sx :=
+  if fill then
+    ofList (fun j =>
+              let coor := rankToCoordinates gout j [] in
+              let r1 := coordinateToRank gin coor false eps in
+              let r2 := coordinateToRank gin coor true 0 in
+              ofRes (g2g_fill_one_gen loc_centered eps gin vals gout dt dmax j) (spec_g2g_fill_one gin vals gout dt dmax j)
+                    (g2g_fill_one_gen false eps gin vals gout dt dmax j) (g2g_fill_one_gen loc_centered eps gin vals gout dt dmax j)
+                    (Qmin (loc_margin gin eps coor) (Qmin (dmax_margin (dvect gin r1 coor) dt dmax) (dmax_margin (dvect gin r2 coor) dt dmax)))) (ranks gout)
+  else
+    let ins := map (fun iv => {| p_active := true; p_coor := rankToCoordinates gin (fst iv) []; p_val := snd iv |}) (combine (ranks gin) vals) in
+    let mloc := minQ (map (fun p => loc_margin gout eps (p_coor p)) (valued ins)) in
+    ofList (fun node => ofRes (g2g_node_gen loc_centered eps gin vals gout dt dmax node) (spec_g2g_node gin vals gout dt dmax node)
+                              (g2g_node_gen false eps gin vals gout dt dmax node) (g2g_node_gen loc_centered eps gin vals gout dt dmax node)
+                              (Qmin mloc (node_margin gout dt dmax ins node))) (ranks gout).
+
 Definition run (c : sx) : sx :=
   match c with
   | L [I 1%Z; g; m; rs; is'] =>
@@ -195,7 +286,14 @@ Definition run (c : sx) : sx :=
                 let p := if Z.eqb op 1 then multiple g' a' fc else divider g' a' fc in
                 let sp := if Z.eqb op 1 then spec_multiple_x0 g' a' fc else spec_divider_x0 g' a' fc in
                 let d := derived g' p in
-                L [ofZs (g_nx d); ofQs (g_dx d); ofQs (g_x0 d); nodes_of d nmax; ofQs sp]
+                let vals := map (fun r => Some (inject_Z (1000 + r))) (ranks g') in
+                L [ofZs (g_nx d); ofQs (g_dx d); ofQs (g_x0 d); nodes_of d nmax; ofQs sp;
+                   (* values migrated by createCoarse / createRefine (grid -> grid with filling, parent values 1000+rank) *)
+                   ofList (fun j => let coor := rankToCoordinates d j [] in
+                                    ofRes (g2g_fill_one_gen loc_centered eps6_double g' vals d 1 [] j) (spec_g2g_fill_one g' vals d 1 [] j)
+                                          (g2g_fill_one_gen false eps6_double g' vals d 1 [] j) (g2g_fill_one_gen loc_centered eps6_double g' vals d 1 [] j)
+                                          (loc_margin g' eps6_double coor))
+                          (zrange (Z.min nmax (prodZ (g_nx d))))]
             | None => sx_error 1
             end
       | _, _ => sx_error 1
@@ -203,8 +301,9 @@ Definition run (c : sx) : sx :=
   | L [I 7%Z; g; ep; pts] =>
       match asGrid g, asQ ep, asListOf asQs pts with
       | Some g', Some ep', Some pts' =>
-          ofList (fun p => L [I (coordinateToRank g' p false ep'); ofQ (c2i_margin g' p false ep');
-                              I (coordinateToRank g' p true 0); ofQ (c2i_margin g' p true 0)]) pts'
+          ofList (fun p => L [I (coordinateToRank g' p loc_centered ep'); ofQ (c2i_margin g' p false ep');
+                              I (coordinateToRank g' p true 0); ofQ (c2i_margin g' p true 0);
+                              I (coordinateToRank g' p false ep')]) pts'
       | _, _, _ => sx_error 1
       end
   | L [I 8%Z; g; I k; ord] =>
@@ -233,6 +332,36 @@ Definition run (c : sx) : sx :=
              ofList (fun v => L [ofQs (rotate_direct r v); ofQs (rotate_inverse r v);
                                  ofQs (rotate_inverse r (rotate_direct r v))]) vs']
       | _, _, _ => sx_error 1
+      end
+  | L [I 11%Z; g; ep; I dt; dm; fl; ps] =>
+      match asGrid g, asQ ep, asQs dm, asZ fl, asListOf asPt ps with
+      | Some g', Some ep', Some dm', Some fl', Some ps' => run_p2g g' ep' dt dm' fl' ps'
+      | _, _, _, _, _ => sx_error 1
+      end
+  | L [I 12%Z; g; vs; ep; I dt; dm; ps] =>
+      match asGrid g, asVals vs, asQ ep, asQs dm, asListOf asPt ps with
+      | Some g', Some vs', Some ep', Some dm', Some ps' => run_g2p g' vs' ep' dt dm' ps'
+      | _, _, _, _, _ => sx_error 1
+      end
+  | L [I 15%Z; g; vs; ep; I dt; dm; ps] =>
+      (* grid -> point with interpolation: (code spec weight-margin old-code) per sample *)
+      match asGrid g, asVals vs, asQ ep, asQs dm, asListOf asPt ps with
+      | Some g', Some vs', Some ep', Some dm', Some ps' =>
+          ofList (fun p => L [ofOQ (if p_active p then interp_one ep' g' vs' dt dm' (p_coor p) else None);
+                              ofOQ (if p_active p then spec_interp_one ep' g' vs' (p_coor p) else None);
+                              ofQ (interp_margin ep' g' (p_coor p));
+                              ofOQ (if p_active p then interp_one_old ep' g' vs' dt dm' (p_coor p) else None)]) ps'
+      | _, _, _, _, _ => sx_error 1
+      end
+  | L [I 13%Z; gi; vs; go; ep; I dt; dm; fl] =>
+      match asGrid gi, asVals vs, asGrid go, asQ ep, asQs dm, asB fl with
+      | Some gi', Some vs', Some go', Some ep', Some dm', Some fl' => run_g2g gi' vs' go' ep' dt dm' fl'
+      | _, _, _, _, _, _ => sx_error 1
+      end
+  | L [I 14%Z; g; L its] =>
+      match asGrid g, mapM asItem its with
+      | Some g', Some its' => L (msession_sx g' its')
+      | _, _ => sx_error 1
       end
   | L [I 10%Z; g; L qs] =>
       match asGrid g with Some g' => run_session_sx g' qs | None => sx_error 1 end
